@@ -33,7 +33,7 @@ func runC02(p *Prog, r *Report) {
 			r.Check(len(ref) == 1 && ref.AllGuarded("recv.peer != nil"), R, rel+"/AddPipe/refusal", ref.Pos(p), "ErrProtoState iff a peer is attached", "refusal of a second peer is not `return ErrProtoState` under peer != nil")
 			// side-effect free refusal: no go / store to heap / channel op guarded by peer != nil
 			se := 0
-			for _, e := range ap.evs {
+			for _, e := range ap.All() {
 				if !hasAtom(e.Guard, "recv.peer != nil") {
 					continue
 				}
